@@ -21,7 +21,10 @@ def main():
     metas = sorted(glob.glob(os.path.join(VERIF, 'seeded', pid + '-*', 'meta.json')),
                    key=lambda p: (json.load(open(p)).get('round', 0), p))
     for m in metas:
-        used.append(json.load(open(m))['what'])
+        d = json.load(open(m))
+        w = d.get('what') or d.get('change') or d.get('summary') or d.get('description') or d.get('needs_to_manifest') or ''
+        if w:
+            used.append(w)
     ideas = '; '.join('(%d) %s' % (i + 1, re.sub(r'\.\s*$', '', w)) for i, w in enumerate(used))
     quant = prop.get('quantifier', {}).get('text', '')
     print(f"""You are helping test a verification framework by producing a realistic *regression* for an open-source Rust library.
